@@ -104,6 +104,10 @@ type Engine struct {
 	refGlobCache  map[*ssa.Function][]*ssa.Global
 	inInit        bool
 	curState      *State                  // state of the block being executed (for value-level operations that read memory)
+	h0facts       map[int]bool            // entry-heap references already stated to predate alloc0
+	snaps         []snapRec               // ghost snapshots of this run (restored after every heap havoc)
+	snapN         int                     // snapshot objects created in this run
+	preOlds       map[string]Val          // old-expressions of the verified function's loop invariants (entry state)
 	forced        map[string]bool         // branch decisions by call-context-qualified key
 	havocArr      map[*smt.Term]havocInfo // fresh arrays introduced by havocLocs
 	undecided     []string
